@@ -234,7 +234,7 @@ func (s *S) onAccept(c *scen.Ctx, sc *world.SrvConn) {
 	case 4:
 		p.kind = "notice-then-close"
 		p.after = 1 + simrt.Draw(3, "c11.after")
-		p.noticeGap = ms([]int{0, 5, 200, 700}[simrt.Draw(4, "c11.noticegap")])
+		p.noticeGap = ms([]int{0, 5, 200, 700, 3000}[simrt.Draw(5, "c11.noticegap")])
 	}
 	if s.bigCalls && simrt.Draw(3, "c11.diemid") == 2 {
 		// this connection's peer dies while a large request is still arriving
